@@ -193,6 +193,36 @@ class Puppet(object):
         tok = token_of(msg)
         self.honest.append((i, tok))
         act = self.script.get(i)
+        if getattr(self, "split", None) is not None:
+            # the message after a held-back ChangeCipherSpec: its first k
+            # bytes go out under the old write state, then the CCS, then the
+            # rest under the new state
+            ccs, k, old_state = self.split
+            self.split = None
+            rl = self.conn._recordLayer
+            data = bytearray(msg.write())
+            if update_hashes:
+                self.conn._handshake_hash.update(data)
+            new_state = rl._writeState
+            rl._writeState = old_state
+            self.sent.append("FRAG")
+            for r in self.orig_send(RawMsg(msg.contentType, data[:k]),
+                                    randomizeFirstBlock, False):
+                yield r
+            self.sent.append(token_of(ccs))
+            for r in self.orig_send(ccs, True, False):
+                yield r
+            rl._writeState = new_state
+            self.sent.append(tok)
+            for r in self.orig_send(RawMsg(msg.contentType, data[k:]),
+                                    randomizeFirstBlock, False):
+                yield r
+            return
+        if act is not None and act[0] == "split-ccs":
+            if tok != "CCS":
+                raise NotQueueable("split-ccs")
+            self.split = (msg, act[1], self.conn._recordLayer._writeState)
+            return
         if self.held is not None and (act is None or act[0] != "swap"):
             held, self.held = self.held, None
             for r in self._apply(act, msg, randomizeFirstBlock,
@@ -321,6 +351,8 @@ class Puppet(object):
         elif act[0] == "mutate":
             data = act[1](bytes(msg.write()))
             self._q(msg if data is None else RawMsg(msg.contentType, data))
+        elif act[0] == "split-ccs":
+            raise NotQueueable("split-ccs")
         elif act[0] == "straddle":
             if msg.contentType != ContentType.handshake:
                 raise NotQueueable("straddle")
